@@ -201,9 +201,9 @@ class BVLower:
                 else:
                     pre.append('(declare-const %s %s)' % (fname, sig[1]))
             return pre, ('(%s %s)' % (fname, ' '.join(A))) if a else fname
-        if op == 'sha256':
+        if op in ('sha256', 'sha256alt'):
             L = len(a)
-            fname = 'sha256_%d' % L
+            fname = '%s_%d' % (op, L)
             if fname not in self.ufs:
                 self.ufs[fname] = L
                 if L:
